@@ -134,7 +134,7 @@ func c05Gen(r *hx.R, tier string, out *hx.Out) []string {
 			ls = append(ls, c05GenUnpack(r))
 		}
 	}
-	return ls
+	return append(ls, c05xGen(r, tier)...)
 }
 
 // c05GenUnpack produces bytes for Unpack: a valid frame, a mutated valid frame, a truncation,
@@ -237,6 +237,8 @@ func c05Run(line string, out *hx.Out) (string, bool) {
 	chunk, _ := strconv.Atoi(f["chunk"])
 	cseed, _ := strconv.Atoi(f["cseed"])
 	switch kind {
+	case "xrt":
+		return c05xRun(line, f, out)
 	case "rawpack":
 		m := parseM(f)
 		out.Count("rawpack")
